@@ -49,8 +49,8 @@ Definition caller_step (s : sess) (i : nat) (veto : bool) (wr : wres) : option s
 
 (* ---- reply handler: handlerCtx.handle -> handleReply ---- *)
 (* status of a completed call whose reply body did not decode although a body codec was
-   named: handleReply does not look at the read error (C04's concern) *)
-Definition decerr_stat : cstat := StOk.
+   named: handleReply honours the read error recorded by the read loop *)
+Definition decerr_stat : cstat := StBadMsg.
 
 Definition reply_stat (c : call) (d : dres) : cstat :=
   if cstat_ok (c_stat c) then
